@@ -22,6 +22,9 @@ ABS = {"none": {}, "defocus": {"defocus": 80.0}, "cs_defocus": {"Cs": 1.2e7, "de
        "astigmatism": {"astigmatism": 60.0, "astigmatism_angle": 0.7, "defocus": 20.0}, "coma": {"coma": 3000.0, "coma_angle": -0.4}}
 
 
+import zlib
+from ..routes import reroute
+
 def geometry(c):
     from abtem.core.energy import energy2wavelength
     energy = c["energy"] * 1e3
@@ -113,6 +116,7 @@ def observe(c):
     cutoff = cutoff_for(c["cutoff"], lam, gpts, extent)
     try:
         obj = build(c["kind"], energy, extent, gpts, cutoff, c["soft"], c["spread"], c["ab"])
+        obj, _route = reroute(obj, zlib.crc32(json.dumps(c, sort_keys=True, default=str).encode()))     # through a copy / deepcopy / pickle
     except Exception as ex:
         return {"kind": c["kind"], "case": c, "raised": True, "exc": f"{type(ex).__name__}: {ex}"[:200]}
     return measure(obj, c["kind"], energy, extent, gpts, cutoff, c["soft"], c)
@@ -147,6 +151,7 @@ def replay_history(h):
     trace = []
     try:
         obj = build(kind, e, x, g, cut, p["soft"], p["spread"], ab)
+        obj, _route = reroute(obj, zlib.crc32(json.dumps([kind, str(p)], default=str).encode()))
         for i, st in enumerate(h[1:], start=1):
             a = st["a"]
             if a == "SetEnergy":
